@@ -407,6 +407,9 @@ func setup(dir, start string) *cache.Cache {
 		must(c.PutBytes(actionID("i2"), content("c2")))
 	case "other":
 		must(c.PutBytes(actionID("i1"), content("c3")))
+	case "both":
+		must(c.PutBytes(actionID("i1"), content("c3")))
+		must(c.PutBytes(actionID("i2"), content("c3")))
 	case "damsame":
 		must(c.PutBytes(actionID("i1"), content("c2")))
 		must(os.WriteFile(dataPath(dir, "c2"), junk(3), 0o666))
